@@ -16,6 +16,11 @@
 (*          + rk, ik : value class of the root key at every position of the root set and of the image signing key         *)
 (*                   (Sb31Format!KeyClasses: leading zero byte in X / Y / both) - on this path the keys are READ from the   *)
 (*                   public / private key files the configuration names.                                                  *)
+(*          + given : what the configuration SUPPLIES next to what it requests (Sb31Format!Givens), derived from k: a plain     *)
+(*                   container (isEncrypted: false) whose configuration names a part-common key (k.pckForm) and / or             *)
+(*                   kdkAccessRights (k.rightsGiven) all the same; a certificate block configuration with useIsk: false that       *)
+(*                   names the ISK keys, constraint, data and the root private key all the same (k.iskGiven) - the shape of the    *)
+(*                   TEMPLATE, which lists every key.                                                                            *)
 (* The harness renders each case into a configuration dictionary + files, calls load_from_config, exports; the SAME     *)
 (* executor walks the bytes and the SAME R-spec (Sb31Rom, via Sb31RomTrace) decides.  Sizes come from Sb31Format.       *)
 EXTENDS Sb31Format, Json, IOUtils
@@ -34,11 +39,11 @@ NumFmts == {"int", "hex", "dec", "hex_"}
 \* ---- how the configuration expresses things (defaults = the shape of the template)
 K0 == [fam |-> "mcxn947", pckForm |-> "txt", pckVal |-> "rnd", encKey |-> "true", sign |-> "signPrivateKey", cb |-> "yaml",
        cbSign |-> "signPrivateKey", cbNew |-> TRUE, rootId |-> TRUE, num |-> "hex",
-       descAbsent |-> FALSE, flagsAbsent |-> FALSE, nxpAbsent |-> FALSE]
+       descAbsent |-> FALSE, flagsAbsent |-> FALSE, nxpAbsent |-> FALSE, rightsGiven |-> TRUE, iskGiven |-> FALSE]
 AllFull(n) == [i \in 1..n |-> "full"] \o <<>>
 Case(cv, nk, us, ik, ud, pck, rt, nx, k, cmds, hist) ==
   [curve |-> cv, nkeys |-> nk, used |-> us, isk |-> ik, ud |-> ud, pck |-> pck, rights |-> rt, enc |-> (k.encKey # "false"), nxp |-> nx,
-   rk |-> AllFull(nk), ik |-> "full", k |-> k, cmds |-> cmds, hist |-> hist]
+   rk |-> AllFull(nk), ik |-> "full", k |-> k, cmds |-> cmds, hist |-> hist, given |-> Requested(k.encKey # "false", pck, rt, ik)]
 Keyed(c, rk, ik) == [c EXCEPT !.rk = rk, !.ik = ik]
 E1 == <<"Export">>
 E2 == <<"Export", "Export">>
@@ -50,9 +55,14 @@ Norm(c) ==
                       !.rootId = IF yamlIsk THEN @ ELSE TRUE,
                       !.pckForm = IF c.enc THEN @ ELSE (IF @ \in {"absent", "hex"} THEN @ ELSE "absent"),
                       !.pckVal = IF c.enc /\ (@ # "half0" \/ c.pck = 256) THEN @ ELSE "rnd",
-                      !.nxpAbsent = IF c.nxp THEN FALSE ELSE @]
-  IN [c EXCEPT !.k = k1, !.pck = IF c.enc THEN @ ELSE 128, !.rights = IF c.enc THEN @ ELSE 0, !.ud = IF c.isk THEN @ ELSE 0,
-               !.ik = IF c.isk THEN @ ELSE "full"]
+                      !.nxpAbsent = IF c.nxp THEN FALSE ELSE @,
+                      !.rightsGiven = IF c.enc THEN TRUE ELSE @,                       \* what is requested is supplied
+                      !.iskGiven = IF c.isk THEN TRUE ELSE (IF k.cb = "yaml" THEN @ ELSE FALSE)]
+      pck == IF c.enc \/ k1.pckForm # "absent" THEN c.pck ELSE 128                    \* a plain container that names a key: its size is a dimension
+      rt  == IF c.enc \/ k1.rightsGiven THEN c.rights ELSE 0
+  IN [c EXCEPT !.k = k1, !.pck = pck, !.rights = rt, !.ud = IF c.isk THEN @ ELSE 0,
+               !.ik = IF c.isk THEN @ ELSE "full",
+               !.given = [pck |-> IF k1.pckForm = "absent" THEN 0 ELSE pck, rights |-> IF k1.rightsGiven THEN rt ELSE NoRights, isk |-> k1.iskGiven]]
 
 \* ---- commands as the configuration expresses them
 CC(t, dl, f, s, o) == [t |-> t, dl |-> dl, form |-> f, sub |-> s, opt |-> o]
@@ -96,12 +106,21 @@ TourK == {Norm(Case(cv, 2, 1, cv = 48, 0, bits, rt, FALSE,
             rt \in IF Full THEN 0..3 ELSE {0, 3}}
 TourP == {Norm(Case(cv, 1, 0, FALSE, 0, 128, 0, nx, [K0 EXCEPT !.encKey = "false", !.pckForm = f], Three, h))
           : cv \in {32, 48}, nx \in BOOLEAN, f \in {"absent", "hex"}, h \in {E1, E2}}
+\* ---- tour P2: what a PLAIN container's configuration supplies all the same - no key / a key of either size x no kdkAccessRights / some x
+\*      ISK keys in a certificate block configuration with useIsk: false; exported once / twice
+TourP2 == {Norm(Case(cv, 1, 0, FALSE, 0, bits, rt[2], FALSE,
+                     [K0 EXCEPT !.encKey = "false", !.pckForm = f, !.rightsGiven = rt[1], !.iskGiven = gi], Three, IF gi THEN E2 ELSE E1))
+           : cv \in {32, 48}, f \in {"absent", "hex"}, bits \in {128, 256},
+             rt \in {<<FALSE, 0>>} \cup {<<TRUE, r>> : r \in IF Full THEN 0..3 ELSE {0, 3}}, gi \in BOOLEAN}
+SupplyLemma == \A cv \in {32, 48}, p \in GivenPcks, r \in {NoRights, 0, 3}, gi \in BOOLEAN :
+                 \E c \in TourP2 : c.curve = cv /\ ~c.enc /\ ~c.isk /\ c.given = [pck |-> p, rights |-> r, isk |-> gi]
+ASSUME SupplyLemma
 
 \* ---- tour S: who signs - key names in the container configuration x certificate block as nested configuration / binary x
 \*      ISK (key names of the nested configuration, new / legacy names, main certificate index given / found from the key) x root sets
 RootSets == {<<1, 0>>, <<2, 1>>, <<3, 0>>, <<4, 3>>}
-TourS == {Norm(Case(cv, rs[1], rs[2], FALSE, 0, 128, 2, FALSE, [K0 EXCEPT !.sign = sg, !.cb = cb, !.pckForm = "hex"], Three, E1))
-          : cv \in {32, 48}, rs \in RootSets, sg \in KeyKeys, cb \in {"yaml", "bin"}}
+TourS == {Norm(Case(cv, rs[1], rs[2], FALSE, 0, 128, 2, FALSE, [K0 EXCEPT !.sign = sg, !.cb = cb, !.pckForm = "hex", !.iskGiven = gi], Three, E1))
+          : cv \in {32, 48}, rs \in RootSets, sg \in KeyKeys, cb \in {"yaml", "bin"}, gi \in BOOLEAN}     \* gi: ISK keys named although useIsk is false
     \cup {Norm(Case(cv, 4, 2, TRUE, ud, 256, 1, FALSE,
                     [K0 EXCEPT !.sign = sg, !.cb = cb, !.cbSign = cs, !.cbNew = nw, !.rootId = ri, !.pckForm = "bin"], Three, E1))
           : cv \in {32, 48}, ud \in IF Full THEN {0, 4, 96} ELSE {0, 96}, sg \in KeyKeys, cb \in {"yaml", "bin"}, cs \in KeyKeys,
@@ -136,7 +155,7 @@ TourC3 == UNION {{CfgA([K0 EXCEPT !.num = n], EveryKind, h), CfgB([K0 EXCEPT !.n
 \* ---- tour H: optional keys of the header given / omitted (description, configuration word, NXP flag)
 TourH == UNION {{CfgA([K0 EXCEPT !.descAbsent = d, !.flagsAbsent = f, !.nxpAbsent = x, !.num = "dec"], Three, E2),
                  CfgB([K0 EXCEPT !.descAbsent = d, !.flagsAbsent = f, !.nxpAbsent = x, !.num = "int"], Three, E1)} : d \in BOOLEAN, f \in BOOLEAN, x \in BOOLEAN}
-Tour == TourK \cup TourP \cup TourS \cup TourR \cup TourC1 \cup TourC2 \cup TourC3 \cup TourH
+Tour == TourK \cup TourP \cup TourP2 \cup TourS \cup TourR \cup TourC1 \cup TourC2 \cup TourC3 \cup TourH
 
 \* lemmas of the tour (non-vacuity): every key form x size x curve x value class is there encrypted; every command shape is there;
 \* every pair of key names (container / nested certificate configuration) is there
@@ -160,11 +179,13 @@ KeepFull == stage = "rk" /\ stage' = "key" /\ UNCHANGED case
 PickKeys == /\ stage = "rk" /\ stage' = "key"
             /\ \E v \in [1..case.nkeys -> KeyClasses] : \E c \in KeyClasses : case' = [case EXCEPT !.rk = v \o <<>>, !.ik = c]
 PickKey == /\ stage = "key" /\ stage' = "sign"
-           /\ \E bits \in {128, 256}, f \in PckForms \cup {"absent"}, v \in {"rnd", "lead0", "half0"}, ek \in {"true", "absent", "false"}, rt \in 0..3 :
-                case' = [case EXCEPT !.pck = bits, !.rights = rt, !.enc = (ek # "false"), !.k.pckForm = f, !.k.pckVal = v, !.k.encKey = ek]
+           /\ \E bits \in {128, 256}, f \in PckForms \cup {"absent"}, v \in {"rnd", "lead0", "half0"}, ek \in {"true", "absent", "false"}, rt \in 0..3,
+                 rg \in BOOLEAN :
+                case' = [case EXCEPT !.pck = bits, !.rights = rt, !.enc = (ek # "false"), !.k.pckForm = f, !.k.pckVal = v, !.k.encKey = ek,
+                                     !.k.rightsGiven = rg]
 PickSign == /\ stage = "sign" /\ stage' = "hdr"
-            /\ \E sg \in KeyKeys, cb \in {"yaml", "bin"}, cs \in KeyKeys, nw \in BOOLEAN, ri \in BOOLEAN :
-                 case' = [case EXCEPT !.k.sign = sg, !.k.cb = cb, !.k.cbSign = cs, !.k.cbNew = nw, !.k.rootId = ri]
+            /\ \E sg \in KeyKeys, cb \in {"yaml", "bin"}, cs \in KeyKeys, nw \in BOOLEAN, ri \in BOOLEAN, gi \in BOOLEAN :
+                 case' = [case EXCEPT !.k.sign = sg, !.k.cb = cb, !.k.cbSign = cs, !.k.cbNew = nw, !.k.rootId = ri, !.k.iskGiven = gi]
 PickHdr == /\ stage = "hdr" /\ stage' = "cmds"
            /\ \E n \in NumFmts, d \in BOOLEAN, f \in BOOLEAN, x \in BOOLEAN, h \in {E1, E2} :
                 case' = [case EXCEPT !.k.num = n, !.k.descAbsent = d, !.k.flagsAbsent = f, !.k.nxpAbsent = x, !.hist = h]
